@@ -370,3 +370,30 @@ func DupPathCase() (*DAG, datamodel.Node) {
 	).Node()
 	return d, sel
 }
+
+// FlatDAG builds a root list of n links to distinct raw blocks of the given size (response
+// data volume is n*size; used where a per-peer memory allowance must fill up).
+func FlatDAG(r *rand.Rand, n, size int, salt string) *DAG {
+	d := &DAG{Blocks: map[cid.Cid][]byte{}, Keys: dagKeys}
+	var leaves []cid.Cid
+	for i := 0; i < n; i++ {
+		data := make([]byte, size)
+		r.Read(data)
+		copy(data, []byte(fmt.Sprintf("%s-%d|", salt, i)))
+		c := mkCid(cid.Raw, data)
+		d.Blocks[c] = data
+		d.Order = append(d.Order, c)
+		leaves = append(leaves, c)
+	}
+	rootNode, _ := qp.BuildList(basicnode.Prototype.Any, int64(n), func(la datamodel.ListAssembler) {
+		for _, c := range leaves {
+			qp.ListEntry(la, qp.Link(cidlink.Link{Cid: c}))
+		}
+	})
+	var buf bytes.Buffer
+	_ = dagcbor.Encode(rootNode, &buf)
+	d.Root = mkCid(cid.DagCBOR, buf.Bytes())
+	d.Blocks[d.Root] = buf.Bytes()
+	d.Order = append(d.Order, d.Root)
+	return d
+}
